@@ -123,7 +123,21 @@ pub fn splitmix(state: &mut u64) -> u64 {
 
 /// Deterministic pseudo-random content; never all zero for len >= 1 (first byte is forced
 /// non-zero so that a payload cannot be mistaken for untouched file space).
+/// Seeds with these top 16 bits give regular content instead of pseudo-random bytes: one byte
+/// repeated, or a pattern whose period is the payload capacity of a frame that fills a block
+/// (consecutive block-filling frames of such a record are byte-identical, headers included).
+pub const UNIFORM_SEED: u64 = 0xF111 << 48;
+pub const PERIODIC_SEED: u64 = 0xF222 << 48;
+
 pub fn plain_bytes(seed: u64, len: usize) -> Vec<u8> {
+    if seed >> 48 == UNIFORM_SEED >> 48 {
+        return vec![(seed & 0xff) as u8 | 1; len];
+    }
+    if seed >> 48 == PERIODIC_SEED >> 48 {
+        let period = 32_768 - 7;
+        let base = plain_bytes(seed & 0xffff_ffff, period);
+        return (0..len).map(|idx| base[idx % period]).collect();
+    }
     let mut state = seed ^ 0xA5A5_5A5A_1234_5678;
     let mut out = Vec::with_capacity(len + 8);
     while out.len() < len {
